@@ -183,7 +183,11 @@ pub fn to_val(v: DataValue) -> Val {
         DataValue::Int64(i) => Val::Int(i),
         DataValue::Float64(f) => Val::F(f.0),
         DataValue::String(s) => Val::Str(s.to_string()),
-        DataValue::Date(d) => Val::Date(d.to_string()),
+        // (formatting a day number outside the calendar panics: only corrupted data has one)
+        DataValue::Date(d) => match std::panic::catch_unwind(|| d.to_string()) {
+            Ok(s) => Val::Date(s),
+            Err(_) => Val::Other("<invalid date>".into()),
+        },
         DataValue::Decimal(d) => {
             // hundredths when exactly representable (scale normalised away)
             let (m, sc) = (d.mantissa(), d.scale());
